@@ -109,8 +109,10 @@ def run_path(contract: FunctionContract, shape, prefix, repo=REPO):
             pos = [selfarg] if selfarg is not None else []
             value = it.call(f, pos, kwargs)
             outcome = ("return", value)
+            it.last_result = value
         except RaiseSig as r:
             outcome = ("raise", r.exc)
+            it.last_result = r.exc
         it.frames.pop()
         ctx = Ctx(it, Env(), old)
         ctx.final = args
@@ -136,7 +138,15 @@ def run_path(contract: FunctionContract, shape, prefix, repo=REPO):
                 wit = None
         res.append({"id": o.id, "status": o.status, "time": o.time, "detail": o.detail, "kind": o.kind, "line": o.line,
                     "model": model_text(o.model) if o.model is not None else None, "path": list(o.path), "witness": wit, "shape": tag})
-    stats = {"queries": it.nqueries, "solver_time": it.solver_time, "outcome": outcome[0] if outcome else "cut", "steps": it.steps,
+    xcheck = None
+    if contract.tier == "T2" and outcome is not None and hasattr(contract, "real") and it.modular_calls == 0:
+        # CPython cross-check (DESIGN 10): a model of this path's condition, with the engine's predicted result, to be run on the real code
+        try:
+            if it.check() == "sat":
+                xcheck = contract.witness(it, it.solver.model(), getattr(it, "entry_args", {}))
+        except Exception:
+            xcheck = None
+    stats = {"xcheck": xcheck, "queries": it.nqueries, "solver_time": it.solver_time, "outcome": outcome[0] if outcome else "cut", "steps": it.steps,
              "clock_reads": it.clock_reads, "attached": len(it.attached)}
     return res, it.forks, sorted(it.trusted), stats
 
@@ -148,7 +158,7 @@ def _task(cref, shape, prefix, repo):
         return run_path(contract, shape, prefix, repo)
     except Exception:
         return [{"id": f"{contract.fname}/engine", "status": "crash", "time": 0, "detail": traceback.format_exc()[-1500:], "kind": "", "line": 0, "model": None,
-                 "path": list(prefix), "witness": None, "shape": contract.shape_text(shape)}], [], [], {"queries": 0, "solver_time": 0, "outcome": "crash", "steps": 0, "clock_reads": 0, "attached": 0}
+                 "path": list(prefix), "witness": None, "shape": contract.shape_text(shape)}], [], [], {"queries": 0, "solver_time": 0, "outcome": "crash", "steps": 0, "clock_reads": 0, "attached": 0, "xcheck": None}
 
 
 _POOL = None
@@ -173,8 +183,12 @@ class Result:
         self.crashes = []
         self.shapes = []
         self.max_paths_hit = False
+        self.xchecks = []
 
     def add(self, o):
+        if o["status"] == "crash":
+            self.crashes.append(o["detail"])
+            return
         e = self.by_id.setdefault(o["id"], {"status": "proved", "time": 0.0, "instances": 0, "detail": "", "model": None, "witness": None, "kind": o["kind"], "line": o["line"], "shape": ""})
         e["instances"] += 1
         e["time"] += o["time"]
@@ -236,6 +250,8 @@ def _absorb(res, obs, trusted, stats):
     res.queries += stats["queries"]
     res.solver_time += stats["solver_time"]
     res.outcomes[stats["outcome"]] = res.outcomes.get(stats["outcome"], 0) + 1
+    if stats.get("xcheck") is not None and len(res.xchecks) < 400:
+        res.xchecks.append(stats["xcheck"])
     for o in obs:
         res.add(o)
 
